@@ -5,6 +5,7 @@ import ast
 from typing import Dict, List, Optional, Tuple
 
 from ..model import AnalysisError, FuncInfo, Program, dotted, own_nodes, unparse
+from ..symex import resolve as _resolve
 from ..symex import atoms_of, facts_for, phi_alternatives, resolve, always_leaves
 from .common import U, const_value, is_self_attr, kwarg, np_call, returns_of, short
 
@@ -283,16 +284,39 @@ def kkt(prog: Program, rep, sc) -> None:
     rep.check(dt == "float", "magnitudes-are-float", s.qualname, short(rdefs[0].stmt) if rdefs else rarg,
               f"the column-sum accumulator is certainly float-kinded (found {dt})", s.loc(rdefs[0].stmt) if rdefs else s.loc())
     # entry rescaling and D accumulation agree
-    upd = [q for q in fs.order if isinstance(q.stmt, ast.Assign) and isinstance(q.stmt.targets[0], ast.Subscript) and np_call(q.stmt.value, "ldexp") and lp in q.loops]
+    upd = [q for q in fs.order if isinstance(q.stmt, ast.Assign) and np_call(q.stmt.value, "ldexp") and lp in q.loops]
     ok_upd = False
+
+    def deref(e, q):
+        """follow in-loop temporaries (`shift = Rsca[r] + Rsca[c]`) back to their single definition."""
+        seen = 0
+        while isinstance(e, ast.Name) and e.id != rname and seen < 4:
+            defs = [d for d in fs.order if isinstance(d.stmt, ast.Assign) and len(d.stmt.targets) == 1 and U(d.stmt.targets[0]) == e.id and d.loops == q.loops and d.index < q.index]
+            if len(defs) != 1:
+                break
+            e = defs[0].stmt.value
+            seen += 1
+        return e
+
     if len(upd) == 1:
         u_ = upd[0].stmt
-        k_ = U(u_.targets[0].slice)
-        e = u_.value.args[1]
-        same_target = U(u_.targets[0].value) == data_name.split("[")[0] if data_name else False
-        ok_upd = U(u_.value.args[0]) == f"{U(u_.targets[0].value)}[{k_}]" and isinstance(e, ast.BinOp) and isinstance(e.op, ast.Add) and \
-            {_rc(fs.resolved(u_, e.left.slice)), _rc(fs.resolved(u_, e.right.slice))} == {"row", "col"} and \
-            U(e.left.value) == rname and U(e.right.value) == rname and same_target
+        tg = u_.targets[0]
+        whole = isinstance(tg, ast.Name) or (isinstance(tg, ast.Subscript) and isinstance(tg.slice, ast.Slice) and tg.slice.lower is None and tg.slice.upper is None and tg.slice.step is None)
+        base = U(tg) if isinstance(tg, ast.Name) else U(tg.value)
+        e = deref(u_.value.args[1], upd[0])
+        same_target = base == data_name.split("[")[0] if data_name else False
+        if isinstance(e, ast.BinOp) and isinstance(e.op, ast.Add) and isinstance(e.left, ast.Subscript) and isinstance(e.right, ast.Subscript):
+            kname = U(tg.slice) if isinstance(tg, ast.Subscript) and isinstance(tg.slice, ast.Name) else None
+            env_ = {a: b for a, b in fs.at(u_).env.items() if a != kname}
+            li, ri = _resolve(deref(e.left.slice, upd[0]), env_), _resolve(deref(e.right.slice, upd[0]), env_)
+            if whole:
+                kinds = {li.attr if isinstance(li, ast.Attribute) else None, ri.attr if isinstance(ri, ast.Attribute) else None}
+                first_ok = U(u_.value.args[0]) == base
+            else:
+                k_ = U(tg.slice)
+                kinds = {_rc(li) if U(getattr(li, "slice", None) or ast.Name(id="?")) == k_ else None, _rc(ri) if U(getattr(ri, "slice", None) or ast.Name(id="?")) == k_ else None}
+                first_ok = U(u_.value.args[0]) == f"{base}[{k_}]"
+            ok_upd = first_ok and kinds == {"row", "col"} and U(e.left.value) == rname and U(e.right.value) == rname and same_target
     rep.check(ok_upd, "equilibration-rescale", s.qualname, short(upd[0].stmt) if upd else "", "entry k is rescaled by ldexp(entry, Rsca[row_k] + Rsca[col_k])", s.loc())
     dacc = [q for q in fs.order if isinstance(q.stmt, ast.AugAssign) and isinstance(q.stmt.target, ast.Name) and U(q.stmt.value) == rname and isinstance(q.stmt.op, ast.Add) and lp in q.loops]
     ok_d = len(dacc) == 1 and U(rets[0].value) == U(dacc[0].stmt.target) and (not upd or dacc[0].facts == upd[0].facts or True)
@@ -324,16 +348,16 @@ def scaling_inputs(prog: Program, rep) -> None:
     fc = facts_for(cs)
     pb, pp, sp_, sd_ = cs.params[:4]
     want = {
-        "Scaling.from_nominal_values": [[sp_, f"__phi__({pb}.cons({sp_}), np.array([], dtype={sp_}.dtype))"]],
-        "Scaling.from_grad_jac": [[f"{pb}.obj_grad({sp_})", f"__phi__({pb}.cons_jac({sp_}), sparse_zero(shape=(0, {pb}.num_vars)))"]],
-        "Scaling.from_equilibrated_kkt": [[f"{pb}.lag_hess({sp_}, {sd_})", f"__phi__({pb}.cons_jac({sp_}), sparse_zero(shape=(0, {pb}.num_vars)))"]],
+        "Scaling.from_nominal_values": [{sp_}, {f"{pb}.cons({sp_})", f"np.array([], dtype={sp_}.dtype)"}],
+        "Scaling.from_grad_jac": [{f"{pb}.obj_grad({sp_})"}, {f"{pb}.cons_jac({sp_})", f"sparse_zero(shape=(0, {pb}.num_vars))"}],
+        "Scaling.from_equilibrated_kkt": [{f"{pb}.lag_hess({sp_}, {sd_})"}, {f"{pb}.cons_jac({sp_})", f"sparse_zero(shape=(0, {pb}.num_vars))"}],
     }
     n = 0
     for r in returns_of(cs):
         v = r.value
         if isinstance(v, ast.Call) and (dotted(v.func) or "") in want:
             n += 1
-            got = [U(fc.resolved(r, z)) for z in v.args]
-            rep.check(got in want[dotted(v.func)], "scaling-inputs-unmodified", cs.qualname, short(r),
-                      f"{dotted(v.func)} is fed the scaling point / the problem's callback values exactly as given (found {[g[:70] for g in got]})", cs.loc(r))
+            got = [{U(a) for a in phi_alternatives(fc.resolved(r, z))} for z in v.args]
+            rep.check(got == want[dotted(v.func)], "scaling-inputs-unmodified", cs.qualname, short(r),
+                      f"{dotted(v.func)} is fed the scaling point / the problem's callback values exactly as given (found {[sorted(x)[:2] for x in got]})", cs.loc(r))
     rep.pin("automatic scaling constructions in create_scaling", n, 3)
